@@ -161,16 +161,16 @@ func (sc *scen) absRenewal(r types.V2FileContractRenewal) string {
 }
 
 var renewMuts = join([]string{"ren-height-low", "ren-too-long", "ren-allowance-zero", "ren-allowance-low", "ren-collateral-max",
-	"ren-fee-zero", "underfunded", "rnsig-flip", "rnsig-other", "rcsig-flip", "rcsig-other", "abort-close", "bad-input-sig", "unknown-cid"}, ptMuts, chalMuts)
+	"ren-fee-zero", "underfunded", "rnsig-flip", "rnsig-other", "rcsig-flip", "rcsig-other", "abort-close", "bad-input-sig", "unknown-cid", "renewed-cid"}, ptMuts, chalMuts)
 
 var refreshMuts = join([]string{"ren-allowance-zero", "ren-allowance-low", "ren-collateral-max",
-	"ren-fee-zero", "underfunded", "rnsig-flip", "rnsig-other", "rcsig-flip", "rcsig-other", "abort-close", "bad-input-sig", "unknown-cid"}, ptMuts, chalMuts)
+	"ren-fee-zero", "underfunded", "rnsig-flip", "rnsig-other", "rcsig-flip", "rcsig-other", "abort-close", "bad-input-sig", "unknown-cid", "renewed-cid"}, ptMuts, chalMuts)
 
 // doRenewal plays renew (kind "renew") or refresh ("refresh-full", "refresh-partial").
 func (sc *scen) doRenewal(kind, mut string) *outcome {
 	w := sc.w
 	cs := w.cm.TipState()
-	ct, id, absID, key := sc.target(mut)
+	ct, id, absID, key := sc.target(&mut)
 	existing := sc.revOf(ct)
 	hp, pterm := sc.prices(mut)
 	tip := cs.Index.Height
